@@ -40,6 +40,31 @@ def run(ctx, rep):
             rep.fail("oracle", "reference-device-rejects-request", {"key": bytes(k).hex(), "counter": c, "data": bytes(d).hex()},
                      {"packet": bytes(p).hex(), "parsed": [st, outs]})
     rep.sample({"counter": cases[40][1], "data": bytes(cases[40][2]).hex(), "packet": bytes(impl[40][1]).hex()})
+    # ---- many packets through ONE protocol object (one session): each is what a fresh object makes of it -------------------
+    for sidx in range(ctx.n(12, 80)):
+        key = keys[sidx % len(keys)]
+        steps, want = [], []
+        for j in range(rng.randrange(2, 9)):
+            if rng.random() < 0.65:
+                d, r, c = rbytes(rng, rng.randrange(0, 60)), rbytes(rng, 16), (sidx * 17 + j) % 4096
+                steps.append(("enc", c, d, r)); want.append((F_ENC, [key, [c], d, r]))
+            else:
+                d, c = rbytes(rng, rng.randrange(0, 60)), rng.randrange(65536)
+                pkt = ctx.model.one(F_BUILD, [[3], key, [c], d, rbytes(rng, 16)])[1][0]
+                steps.append(("dec", pkt)); want.append((F_PROC, [key, pkt]))
+        got = F.v3_session(key, steps)
+        mo2 = ctx.model.batch(want)
+        for j, (stp, im, m) in enumerate(zip(steps, got, mo2)):
+            rep.case(("session", sidx, j), "same-object-sequence")
+            inp = {"key": bytes(key).hex(), "position_in_session": j,
+                   "session": [[x[0]] + [bytes(y).hex() if isinstance(y, (list, bytes)) else y for y in x[1:]] for x in steps[:j + 1]]}
+            F.cmp_res(rep, "v3-session-step", inp, im, m)
+            if stp[0] == "enc" and im[0] == 0:
+                st, outs = ctx.model.one(F_PARSE, [key, im[1]])
+                if st != 0 or outs[0][0] != stp[1] or outs[1] != stp[2]:
+                    rep.fail("oracle", "reference-device-rejects-request:later-in-session", inp, {"packet": bytes(im[1]).hex(), "parsed": [st, outs]})
+            if stp[0] == "dec" and (im[0] != 0 or im[1] != ctx.model.one(F_PROC, [key, stp[1]])[1][0]):
+                rep.fail("oracle", "response-not-decoded-to-payload:later-in-session", inp, {"result": [im[0], str(im[1])[:80]]})
     # ---- responses built by the reference -----------------------------------------------------------
     rcases = []
     for n in range(0, 301):
